@@ -4,6 +4,7 @@
 -/
 import SA.Props.C02
 import SA.Proofs.AcceptTimed
+import SA.Gen.Locks
 namespace SA.Accept
 
 /-- **no_hol_if_off_loop**: when the session handshake runs off the accept loop, then for every set of
@@ -65,6 +66,12 @@ example :
     1 ∈ s.base.finished ∧ 1 ∈ (trun .own stalled s [.timeout 0]).base.finished ∧
     0 ∈ (trun .own stalled s [.timeout 0]).closed := by decide
 
+/-- **locks_not_reentrant**: no function of the repository, while holding one of its mutexes, reaches code that locks
+    the same mutex again (regenerated).  For this property: the DNS endpoint's once-a-minute retirement of silent
+    sessions runs under the session table's lock; if it blocked there, every later client's version request would
+    wait for that lock for ever — one silent peer would stop all later peers. -/
+theorem C15_locks_not_reentrant : Gen.reentrantLockPaths = [] := by decide
+
 end SA.Accept
 
 #print axioms SA.Accept.C15_established_stays
@@ -74,3 +81,4 @@ end SA.Accept
 #print axioms SA.Accept.C15_no_hol_if_off_loop
 #print axioms SA.Accept.C15_handshake_off_loop
 #print axioms SA.Accept.C15_witness_stall
+#print axioms SA.Accept.C15_locks_not_reentrant
